@@ -321,7 +321,7 @@ fn chunk_positions(spec: &FileSpec, kind: &str) -> Vec<(usize, usize)> {
     v
 }
 
-pub const MODEL_OPS: [&str; 63] = [
+pub const MODEL_OPS: [&str; 65] = [
     "cel_payload_short",
     "cel_payload_long",
     "cel_decl_bigger",
@@ -385,6 +385,8 @@ pub const MODEL_OPS: [&str; 63] = [
     "transparent_index_without_entry",
     "many_links_to_big_tilemap",
     "big_honest_cel",
+    "palette_chunk_sequence",
+    "tileset_million_tiny_tiles",
 ];
 
 fn fmt_of(spec: &FileSpec) -> Fmt {
@@ -885,6 +887,89 @@ pub fn model_input(base: &Base, op: usize, rng: &mut Rng, deep_groups: usize) ->
             v.default_storage = Storage::Zlib(6);
             spec = crate::program::compile_with(&sp, &mut r, &v, &crate::program::PaletteProgram::Chunks(chunks));
             label = format!("palette of {} one-entry chunks at indices 1 + k * 2^17 (index 1 last) and a {}x{} cel of index 1", n + 1, side, side);
+        }
+        "palette_chunk_sequence" => {
+            // well-formed: two to five palette chunks of one format whose index ranges overlap, straddle the end of
+            // what came before, leave gaps, repeat or shrink - in the first frame or spread over later ones
+            let nframes = rng.range(1, 3) as usize;
+            let mut sp = Sprite::blank(2, 2, Fmt::Rgba, nframes);
+            sp.layers.push(LayerM::image("l"));
+            sp.cels.insert((0, 0), CelM { x: 0, y: 0, opacity: 255, content: CelContentM::Image { w: 1, h: 1, pixels: vec![1, 2, 3, 255] }, ud: None });
+            let legacy = rng.chance(1, 4);
+            let nchunks = rng.range(2, 5) as usize;
+            let mut chunks: Vec<ChunkSpec> = Vec::new();
+            let mut desc = Vec::new();
+            let mut end = 0u32; // one past the highest index so far
+            for k in 0..nchunks {
+                let (first, len) = if k == 0 {
+                    (*rng.pick(&[0u32, 0, 0, 3]), rng.range(1, 40) as u32)
+                } else {
+                    match rng.below(6) {
+                        0 => { let f = rng.below(end.max(1) as u64) as u32; (f, end - f + rng.range(1, 20) as u32) }   // straddles the end
+                        1 => { let f = rng.below(end.max(1) as u64) as u32; (f, rng.range(1, (end - f).max(1) as i64) as u32) } // inside
+                        2 => (end, rng.range(1, 20) as u32),                                                          // appends
+                        3 => (end + rng.range(1, 30) as u32, rng.range(1, 20) as u32),                                // gap
+                        4 => (0, end + rng.range(0, 9) as u32),                                                       // everything again
+                        _ => (rng.below(300) as u32, rng.range(1, 60) as u32),
+                    }
+                };
+                let len = len.max(1).min(if legacy { 256u32.saturating_sub(first).max(1) } else { 400 });
+                let first = if legacy { first.min(255) } else { first };
+                end = end.max(first + len);
+                desc.push(format!("{}..={}", first, first + len - 1));
+                if legacy {
+                    chunks.push(ChunkSpec::OldPalette { kind: if rng.chance(1, 2) { 4 } else { 0x11 }, packets: vec![(first as u8, (0..len).map(|i| [(i + k as u32 * 40) as u8 & 63, 9, 9]).collect())] });
+                } else {
+                    chunks.push(ChunkSpec::Palette { total: end, first, entries: (0..len).map(|i| PalChunkEntry { flags_extra: 0, rgba: [(first + i) as u8, k as u8, 9, 255], name: if rng.chance(1, 8) { Some(format!("c{}", k)) } else { None } }).collect(), reserved: [0; 8] });
+                }
+            }
+            let mut r = Rng::new(5);
+            let v = Variation::none();
+            let head = chunks.len() - if nframes > 1 { rng.usize_below(chunks.len()) } else { 0 };
+            let tail = chunks.split_off(head);
+            spec = crate::program::compile_with(&sp, &mut r, &v, &crate::program::PaletteProgram::Chunks(chunks));
+            for (j, c) in tail.into_iter().enumerate() {
+                let f = 1 + j % (nframes - 1).max(1);
+                spec.frames[f.min(nframes - 1)].chunks.push(c.into());
+            }
+            label = format!("{} {} palette chunks with index ranges {} over {} frame(s)", nchunks, if legacy { "legacy" } else { "new-format" }, desc.join(", "), nframes);
+        }
+        "tileset_million_tiny_tiles" => {
+            // well-formed and honest: millions of 1x1 / 2x2 / 3x3 tiles (a few KB compressed). Whatever is kept per
+            // TILE beyond its pixels is multiplied by millions
+            let (side, count) = *rng.pick(&[(1u16, 5_000_000u32), (1, 3_000_000), (2, 2_000_000), (3, 1_000_000)]);
+            let fmt = if rng.chance(2, 3) { Fmt::Indexed } else { Fmt::Rgba };
+            let mut sp = Sprite::blank(2, 2, fmt, 1);
+            if fmt == Fmt::Indexed {
+                sp.transparent_index = 0;
+                let mut pal = std::collections::BTreeMap::new();
+                pal.insert(0u32, PalEntryM { rgba: [0, 0, 0, 0], name: None });
+                pal.insert(1u32, PalEntryM { rgba: [9, 9, 9, 255], name: None });
+                sp.palette = Some(pal);
+            }
+            let area = side as usize * side as usize;
+            let mut pixels = vec![0u8; area * fmt.bpp()];
+            let one: Vec<u8> = if fmt == Fmt::Indexed { vec![1] } else { vec![9, 9, 9, 255] };
+            for _ in 0..(count as usize - 1) * area {
+                pixels.extend_from_slice(&one);
+            }
+            sp.tilesets.push(TilesetM { id: 0, flags: TS_EMBED | TS_ZERO_EMPTY, count, tw: side, th: side, base_index: 1, name: "t".into(), ext: None, pixels });
+            let mut l = LayerM::image("tm");
+            l.kind = LayerKind::Tilemap(0);
+            sp.layers.push(l);
+            sp.cels.insert((0, 0), CelM { x: 0, y: 0, opacity: 255, content: CelContentM::Tilemap { w: 2, h: 1, tiles: vec![1, count - 1], masks: [0x1fff_ffff, 0x2000_0000, 0x4000_0000, 0x8000_0000] }, ud: None });
+            let mut r = Rng::new(5);
+            let mut v = Variation::none();
+            v.default_storage = Storage::Zlib(6);
+            spec = crate::program::compile(&sp, &mut r, &v);
+            for fr in spec.frames.iter_mut() {
+                for c in fr.chunks.iter_mut() {
+                    if let ChunkSpec::Tileset { level, .. } = &mut c.spec {
+                        *level = 6;
+                    }
+                }
+            }
+            label = format!("tileset of {} tiles of {}x{} {:?} pixels", count, side, side, fmt);
         }
         "tileset_strip_height_u32" => {
             // self-consistent: 65538 tiles of 1x65535 indexed pixels - all tiles stacked are 2^32 + 65534 pixel rows,
